@@ -176,6 +176,8 @@ Fixpoint run (fuel : nat) (r : routine) (x : pv) {struct fuel} : res pv :=
                (fun rs => construct_map rt k rs)))
       | RTuple rs =>
           bind (load rt x) (fun d => bind (itervalues rt d) (fun vs =>
+          if Nat.ltb (length vs) (length rs) then Raise EValue
+          else
           bind (mapM (fun rv => run n (fst rv) (snd rv)) (zip_trunc rs vs)) (fun out => Ok (PSeq KTuple out))))
       | RUnion _ rs => first_ok rt (map (run n) rs) x
       | RStruct c fields =>
